@@ -145,3 +145,258 @@ theorem decodeName_injective {k₁ k₂ : Kind} (h : k₁.decodeName = k₂.deco
   cases k₁ <;> cases k₂ <;> first | rfl | (exfalso; revert h; decide)
 
 end SigModel.SessionId
+
+namespace SigModel.SessionId
+open SigModel.Generated.SessionId SigModel.Hmac SigModel
+
+/-! ### base64 facts used below -/
+
+theorem b64_length (bs : Bytes) : (b64 bs).length = (bs.length + 2) / 3 * 4 := by
+  unfold b64
+  induction bs using Base64.encode.induct with
+  | case1 a b c rest ih => simp only [Base64.encode, List.length_cons, ih]; omega
+  | case2 a b => simp [Base64.encode]
+  | case3 a => simp [Base64.encode]
+  | case4 => simp [Base64.encode]
+
+theorem b64_length_reverse (bs : Bytes) : (b64 bs.reverse).length = (b64 bs).length := by
+  rw [b64_length, b64_length, List.length_reverse]
+
+theorem unb64_b64 (bs : Bytes) : unb64 (b64 bs) = some bs := Base64.decode_encode Base64.url_good bs
+
+theorem b64_injective {x y : Bytes} (h : b64 x = b64 y) : x = y := Base64.encode_injective Base64.url_good h
+
+theorem canonical_b64 (bs : Bytes) : Base64.canonical Base64.url (b64 bs) = true :=
+  Base64.canonical_encode Base64.url_good bs
+
+theorem canonical_elim {s : Bytes} (h : Base64.canonical Base64.url s = true) : ∃ b, unb64 s = some b ∧ b64 b = s :=
+  Base64.canonical_iff.mp h
+
+/-! ### the cookie bytes parse in exactly one way -/
+
+theorem cookieBytes_split {date vb tag : Bytes} (hd : sep ∉ date) (hv : sep ∉ vb) :
+    Bytes.splitFirst sep (cookieBytes date vb tag) = some (date, vb ++ sep :: tag) ∧
+    Bytes.splitFirst sep (vb ++ sep :: tag) = some (vb, tag) :=
+  ⟨Bytes.splitFirst_append _ hd, Bytes.splitFirst_append _ hv⟩
+
+theorem cookieBytes_injective {d₁ v₁ t₁ d₂ v₂ t₂ : Bytes} (hd₁ : sep ∉ d₁) (hv₁ : sep ∉ v₁)
+    (hd₂ : sep ∉ d₂) (hv₂ : sep ∉ v₂) (h : cookieBytes d₁ v₁ t₁ = cookieBytes d₂ v₂ t₂) :
+    d₁ = d₂ ∧ v₁ = v₂ ∧ t₁ = t₂ := by
+  have a := (cookieBytes_split (tag := t₁) hd₁ hv₁).1
+  rw [h, (cookieBytes_split (tag := t₂) hd₂ hv₂).1] at a
+  simp only [Option.some.injEq, Prod.mk.injEq] at a
+  obtain ⟨a1, a2⟩ := a
+  have b := (cookieBytes_split (date := d₁) (tag := t₁) hd₁ hv₁).2
+  rw [← a2, (cookieBytes_split (date := d₁) (tag := t₂) hd₁ hv₂).2] at b
+  simp only [Option.some.injEq, Prod.mk.injEq] at b
+  exact ⟨a1.symm, b.1.symm, b.2.symm⟩
+
+theorem maxAge_zero : maxAge = 0 := by decide
+
+/-- What `securecookie.Decode` accepts, spelled out. -/
+theorem cookieDecode_some_iff (mac : Mac) (hk name : Bytes) (now : Int) (s v : Bytes) :
+    cookieDecode mac hk name now s = some v ↔
+      hk ≠ [] ∧ s.length ≤ maxLength ∧ ∃ date vb tag, unb64 s = some (cookieBytes date vb tag) ∧
+        sep ∉ date ∧ sep ∉ vb ∧ tag = mac hk (macMsg name date vb) ∧
+        (parseInt64 date).isSome = true ∧ unb64 vb = some v := by
+  constructor
+  · intro h
+    unfold cookieDecode at h
+    by_cases hk0 : hk.isEmpty = true
+    · simp [hk0] at h
+    simp only [hk0, Bool.false_eq_true, if_false] at h
+    by_cases hl : s.length > maxLength
+    · simp [hl] at h
+    simp only [hl, if_false] at h
+    cases hb : unb64 s with
+    | none => simp [hb] at h
+    | some b =>
+      simp only [hb] at h
+      cases h1 : Bytes.splitFirst sep b with
+      | none => simp [h1] at h
+      | some p1 =>
+        obtain ⟨date, r1⟩ := p1
+        simp only [h1] at h
+        cases h2 : Bytes.splitFirst sep r1 with
+        | none => simp [h2] at h
+        | some p2 =>
+          obtain ⟨vb, tag⟩ := p2
+          simp only [h2] at h
+          by_cases ht : tag = mac hk (macMsg name date vb)
+          · simp only [ht, ne_eq, not_true_eq_false, if_false] at h
+            cases hp : parseInt64 date with
+            | none => simp [hp] at h
+            | some t1 =>
+              simp only [hp, maxAge_zero] at h
+              obtain ⟨e1, n1⟩ := Bytes.splitFirst_spec h1
+              obtain ⟨e2, n2⟩ := Bytes.splitFirst_spec h2
+              refine ⟨by simpa using hk0, by omega, date, vb, tag, ?_, n1, n2, ht, by rw [hp]; rfl, by simpa using h⟩
+              rw [e1, e2]; rfl
+          · simp [ht] at h
+  · rintro ⟨hk0, hl, date, vb, tag, hb, n1, n2, ht, hp, hv⟩
+    subst ht
+    unfold cookieDecode
+    have hk0' : hk.isEmpty = false := by cases hk with | nil => exact absurd rfl hk0 | cons _ _ => rfl
+    have hl' : ¬ s.length > maxLength := by omega
+    obtain ⟨s1, s2⟩ := cookieBytes_split (tag := mac hk (macMsg name date vb)) n1 n2
+    cases hpd : parseInt64 date with
+    | none => simp [hpd] at hp
+    | some t1 => simp [hk0', hl', hb, s1, s2, hpd, maxAge_zero, hv]
+
+/-- The id string that carries the cookie bytes `cb` in role `k`. -/
+def wire (k : Kind) (cb : Bytes) : Bytes :=
+  match k with
+  | .priv => b64 cb
+  | .pub => b64 cb.reverse
+
+theorem wire_injective {k : Kind} {x y : Bytes} (h : wire k x = wire k y) : x = y := by
+  cases k with
+  | priv => exact b64_injective h
+  | pub =>
+    have := congrArg List.reverse (b64_injective h)
+    simpa using this
+
+theorem wire_length (k : Kind) (cb : Bytes) : (wire k cb).length = (b64 cb).length := by
+  cases k with
+  | priv => rfl
+  | pub => exact b64_length_reverse cb
+
+theorem flags : Kind.checksCanonical .priv = true ∧ Kind.checksCanonical .pub = true ∧
+    Kind.reversesOnDecode .pub = true ∧ Kind.reversesOnEncode .pub = true := by decide
+
+/-- What `DecodePrivate` / `DecodePublic` accept, spelled out. -/
+theorem decodeValue_some_iff (mac : Mac) (hk : Bytes) (k : Kind) (now : Int) (s v : Bytes) :
+    decodeValue mac hk k now s = some v ↔
+      hk ≠ [] ∧ s.length ≤ maxLength ∧ ∃ date vb tag, s = wire k (cookieBytes date vb tag) ∧
+        sep ∉ date ∧ sep ∉ vb ∧ tag = mac hk (macMsg k.decodeName date vb) ∧
+        (parseInt64 date).isSome = true ∧ unb64 vb = some v := by
+  constructor
+  · intro h
+    unfold decodeValue at h
+    have hc : k.checksCanonical = true := by cases k; exact flags.1; exact flags.2.1
+    by_cases hcan : Base64.canonical Base64.url s = true
+    · obtain ⟨b0, hb0, hs⟩ := canonical_elim hcan
+      have hne : ¬ (k.checksCanonical = true ∧ Base64.canonical Base64.url s = false) := by simp [hcan]
+      simp only [hne, if_false] at h
+      cases k with
+      | priv =>
+        have : Kind.reversesOnDecode .priv = false := rfl
+        simp only [this, Bool.false_eq_true, if_false] at h
+        obtain ⟨h1, h2, date, vb, tag, hb, r⟩ := (cookieDecode_some_iff _ _ _ _ _ _).mp h
+        refine ⟨h1, h2, date, vb, tag, ?_, r⟩
+        rw [hb0] at hb
+        rw [← hs, Option.some.inj hb]; rfl
+      | pub =>
+        simp only [flags.2.2.1, if_true] at h
+        unfold reverseId at h
+        simp only [hb0] at h
+        obtain ⟨h1, h2, date, vb, tag, hb, r⟩ := (cookieDecode_some_iff _ _ _ _ _ _).mp h
+        rw [unb64_b64] at hb
+        have hb0' : b0 = (cookieBytes date vb tag).reverse := by
+          rw [← Option.some.inj hb, List.reverse_reverse]
+        refine ⟨h1, ?_, date, vb, tag, ?_, r⟩
+        · rw [← hs, ← b64_length_reverse]; exact h2
+        · rw [← hs, hb0']; rfl
+    · have : k.checksCanonical = true ∧ Base64.canonical Base64.url s = false := ⟨hc, by simpa using hcan⟩
+      simp [this] at h
+  · rintro ⟨hk0, hl, date, vb, tag, hs, r⟩
+    unfold decodeValue
+    subst hs
+    cases k with
+    | priv =>
+      have hne : ¬ (Kind.checksCanonical .priv = true ∧ Base64.canonical Base64.url (wire .priv (cookieBytes date vb tag)) = false) := by
+        simp [wire, canonical_b64]
+      have : Kind.reversesOnDecode .priv = false := rfl
+      simp only [hne, this, Bool.false_eq_true, if_false]
+      exact (cookieDecode_some_iff _ _ _ _ _ _).mpr ⟨hk0, hl, date, vb, tag, unb64_b64 _, r⟩
+    | pub =>
+      have hne : ¬ (Kind.checksCanonical .pub = true ∧ Base64.canonical Base64.url (wire .pub (cookieBytes date vb tag)) = false) := by
+        simp [wire, canonical_b64]
+      simp only [hne, flags.2.2.1, if_false, if_true]
+      unfold reverseId wire
+      simp only [unb64_b64, List.reverse_reverse]
+      refine (cookieDecode_some_iff _ _ _ _ _ _).mpr ⟨hk0, ?_, date, vb, tag, unb64_b64 _, r⟩
+      rw [← b64_length_reverse]; exact hl
+
+end SigModel.SessionId
+
+namespace SigModel.SessionId
+open SigModel.Generated.SessionId SigModel.Hmac SigModel
+
+/-! ### decode cache -/
+
+theorem Cache.get_remove (c : Cache) (key key' : Bytes) :
+    (Cache.remove c key).get key' = if key' = key then none else c.get key' := by
+  induction c with
+  | nil => simp [Cache.remove, Cache.get]
+  | cons e r ih =>
+    obtain ⟨k, v⟩ := e
+    unfold Cache.remove at ih ⊢
+    by_cases hk : k = key
+    · subst hk
+      simp only [List.filter, ne_eq, not_true_eq_false, decide_false]
+      rw [ih]
+      by_cases h2 : key' = k
+      · simp [h2]
+      · have : ¬ k = key' := fun e => h2 e.symm
+        simp [h2, Cache.get, this]
+    · have hd : decide ((k, v).1 ≠ key) = true := by simpa using hk
+      simp only [List.filter, hd]
+      by_cases h2 : key' = key
+      · subst h2
+        have : ¬ k = key' := hk
+        simp only [Cache.get, this, if_false, ih, if_true]
+      · simp only [Cache.get, ih, h2, if_false]
+
+theorem Cache.get_set (c : Cache) (key v key' : Bytes) :
+    (Cache.set c key v).get key' = if key' = key then some v else c.get key' := by
+  unfold Cache.set
+  by_cases h : key' = key
+  · subst h; simp [Cache.get]
+  · have : ¬ key = key' := fun e => h e.symm
+    simp only [Cache.get, this, if_false, Cache.get_remove, h]
+
+/-- The part of the cache key after the id. -/
+def Kind.sfx (k : Kind) : Bytes := Bytes.ascii cacheKeySep ++ k.cacheName
+
+theorem cacheKey_eq (k : Kind) (id : Bytes) : cacheKey k id = id ++ k.sfx := by
+  unfold cacheKey Kind.sfx; rw [List.append_assoc]
+
+/-- Keys of the two roles never collide, whatever the id strings are (they may
+themselves contain the separator and the other role's name). -/
+theorem sfx_no_collision (a b : Bytes) : a ++ Kind.sfx .priv ≠ b ++ Kind.sfx .pub := by
+  intro h
+  have h2 := congrArg List.reverse h
+  rw [List.reverse_append, List.reverse_append] at h2
+  have h3 := congrArg (List.take 9) h2
+  rw [List.take_append_of_le_length (by decide), List.take_append_of_le_length (by decide)] at h3
+  revert h3; decide
+
+theorem cacheKey_injective {k k' : Kind} {id id' : Bytes} (h : cacheKey k id = cacheKey k' id') :
+    k = k' ∧ id = id' := by
+  rw [cacheKey_eq, cacheKey_eq] at h
+  cases k <;> cases k'
+  · exact ⟨rfl, List.append_cancel_right h⟩
+  · exact absurd h (sfx_no_collision _ _)
+  · exact absurd h.symm (sfx_no_collision _ _)
+  · exact ⟨rfl, List.append_cancel_right h⟩
+
+theorem cacheFill_flag : cacheFilledOnlyAfterSuccessfulDecode = true := by decide
+
+/-- With `MaxAge(0)` the clock plays no role in decoding. -/
+theorem decodeValue_clock (mac : Mac) (hk : Bytes) (k : Kind) (t t' : Int) (s : Bytes) :
+    decodeValue mac hk k t s = decodeValue mac hk k t' s := by
+  cases h : decodeValue mac hk k t s with
+  | some v => exact ((decodeValue_some_iff _ _ _ t' _ _).mpr ((decodeValue_some_iff _ _ _ t _ _).mp h)).symm
+  | none =>
+    cases h' : decodeValue mac hk k t' s with
+    | none => rfl
+    | some v =>
+      rw [(decodeValue_some_iff _ _ _ t _ _).mpr ((decodeValue_some_iff _ _ _ t' _ _).mp h')] at h
+      cases h
+
+theorem decodeId_clock (mac : Mac) (hk : Bytes) (open_ : Bytes → Option Bytes) (k : Kind) (t t' : Int) (s : Bytes) :
+    decodeId mac hk open_ k t s = decodeId mac hk open_ k t' s := by
+  unfold decodeId; rw [decodeValue_clock mac hk k t t' s]
+
+end SigModel.SessionId
